@@ -25,6 +25,7 @@
 
 import functools
 import re
+import unicodedata
 from .prologVisitor import prologVisitor
 from .errors import CompilerError
 
@@ -237,6 +238,16 @@ class YPPrologVisitor(prologVisitor):
 
     def visitClause(self,ctx):
         lhs = self.visitSimplepredicate(ctx.simplepredicate())
+        if not isinstance(lhs, Predicate):
+            raise CompilerError(self.context.current_source_file, ctx.simplepredicate(),
+                    f"'{ctx.simplepredicate().getText()}' cannot be the head of a clause")
+        # the predicate becomes the Python function <name>_<arity>
+        name = getattr(lhs.functor.name, 'value', None)
+        function_name = f'{name}_{len(lhs.args())}'
+        if not isinstance(name, str) or not function_name.isidentifier() \
+                or unicodedata.normalize('NFKC', function_name) != function_name:
+            raise CompilerError(self.context.current_source_file, ctx.simplepredicate(),
+                    f"'{lhs.functor.name}' cannot be used as the name of a predicate that is defined by clauses")
         if ctx.predicateexpression():
             rhs = self.visitPredicateexpression(ctx.predicateexpression())
         else:
